@@ -437,7 +437,7 @@ fn label(stats: &mut Stats, case: &ConcCase, o: &Outcome) {
 }
 
 fn c10_random(ctx: &ShardCtx) -> ShardResult {
-    let cases = ctx.tier.pick(500, 15_000);
+    let cases = ctx.tier.pick(5000, 15_000);
     run_proptest(ctx, conc_case(), cases, 10, |c, stats| {
         let o = run_once(c, &c.choices)?;
         label(stats, c, &o);
